@@ -82,9 +82,9 @@ def check_interesting_key_sets(ctx, fn, where):
     parents = {("n1",): (("n2",), ("p1",), ("g",)), ("n2",): (("p1",),), ("p1",): ()}
 
     def hook(interp, call, name, ev_args, env):
-        if name == "key_deps.get_new_keys":
+        if name.endswith(".get_new_keys"):
             return set(new_keys)
-        if name == "no_fallback_inv_index.get_parent_map":
+        if name.endswith(".get_parent_map"):
             args, _ = ev_args()
             return {k: parents[k] for k in list(args[0]) if k in parents}
         if name == "_build_interesting_key_sets":
